@@ -29,6 +29,9 @@ def DataFrameColumn_new_decorators : List String := []
 /-- the signature of dataiter/data_frame.py: DataFrameColumn.__new__: parameters in order, with the source text of their defaults -/
 def DataFrameColumn_new_signature : List String := ["cls", "object", "dtype=None", "nrow=None"]
 
+/-- the calls of dataiter/data_frame.py: DataFrameColumn.__new__ in the order Python makes them along the source text -/
+def DataFrameColumn_new_call_order : List String := ["util.sequencify", "Vector", "ValueError", "np.zeros", "column.view"]
+
 /-- dataiter/data_frame.py: DataFrame._reconcile_column (sha256 of the function source: 8374da515148df48) -/
 def DataFrame_reconcile_column (truth : Term → Bool) (column_nrow : Int) (self_nrow : Int) : Out :=
   if truth (Term.app "isinstance" [(Term.sym "column"), (Term.sym "DataFrameColumn")]) then
@@ -47,6 +50,9 @@ def DataFrame_reconcile_column_decorators : List String := []
 /-- the signature of dataiter/data_frame.py: DataFrame._reconcile_column: parameters in order, with the source text of their defaults -/
 def DataFrame_reconcile_column_signature : List String := ["self", "column"]
 
+/-- the calls of dataiter/data_frame.py: DataFrame._reconcile_column in the order Python makes them along the source text -/
+def DataFrame_reconcile_column_call_order : List String := ["isinstance", "DataFrameColumn"]
+
 /-- dataiter/data_frame.py: DataFrame._check_dimensions (sha256 of the function source: df97a94de787c0a0) -/
 def DataFrame_check_dimensions (truth : Term → Bool) (len_set_nrows : Int) : Out :=
   if (!truth (Term.sym "self")) then
@@ -64,6 +70,9 @@ def DataFrame_check_dimensions_decorators : List String := []
 /-- the signature of dataiter/data_frame.py: DataFrame._check_dimensions: parameters in order, with the source text of their defaults -/
 def DataFrame_check_dimensions_signature : List String := ["self"]
 
+/-- the calls of dataiter/data_frame.py: DataFrame._check_dimensions in the order Python makes them along the source text -/
+def DataFrame_check_dimensions_call_order : List String := ["set", "len", "ValueError"]
+
 /-- dataiter/data_frame.py: DataFrame.__setitem__ (sha256 of the function source: 9efe7aa994c46e8b) -/
 def DataFrame_setitem (truth : Term → Bool) : Out :=
   let value' : Term := (Term.app "._reconcile_column" [(Term.sym "self"), (Term.sym "value")]);
@@ -79,6 +88,9 @@ def DataFrame_setitem_decorators : List String := []
 /-- the signature of dataiter/data_frame.py: DataFrame.__setitem__: parameters in order, with the source text of their defaults -/
 def DataFrame_setitem_signature : List String := ["self", "key", "value"]
 
+/-- the calls of dataiter/data_frame.py: DataFrame.__setitem__ in the order Python makes them along the source text -/
+def DataFrame_setitem_call_order : List String := ["self._reconcile_column", "self.__hasattr", "key.isidentifier", "super", "super().__setattr__", "super", "super().__setitem__"]
+
 /-- dataiter/vector.py: Vector._check_dimensions (sha256 of the function source: edef83c32490bd45) -/
 def Vector_check_dimensions (truth : Term → Bool) (self_ndim : Int) : Out :=
   if decide (self_ndim = (1 : Int)) then
@@ -92,6 +104,9 @@ def Vector_check_dimensions_decorators : List String := []
 /-- the signature of dataiter/vector.py: Vector._check_dimensions: parameters in order, with the source text of their defaults -/
 def Vector_check_dimensions_signature : List String := ["self"]
 
+/-- the calls of dataiter/vector.py: Vector._check_dimensions in the order Python makes them along the source text -/
+def Vector_check_dimensions_call_order : List String := ["ValueError"]
+
 /-- dataiter/util.py: length (sha256 of the function source: f2c4ff085c8cc78a) -/
 def util_length (truth : Term → Bool) (len_value : Int) : Out :=
   Out.ret [] (Term.int (if truth (Term.app "is_scalar" [(Term.sym "value")]) then (1 : Int) else len_value))
@@ -101,6 +116,9 @@ def util_length_decorators : List String := []
 
 /-- the signature of dataiter/util.py: length: parameters in order, with the source text of their defaults -/
 def util_length_signature : List String := ["value"]
+
+/-- the calls of dataiter/util.py: length in the order Python makes them along the source text -/
+def util_length_call_order : List String := ["is_scalar", "len"]
 
 /-- dataiter/vector.py: Vector.length (sha256 of the function source: f9a8d1600615e72a) -/
 def Vector_length (truth : Term → Bool) : Out :=
@@ -112,6 +130,9 @@ def Vector_length_decorators : List String := ["property"]
 
 /-- the signature of dataiter/vector.py: Vector.length: parameters in order, with the source text of their defaults -/
 def Vector_length_signature : List String := ["self"]
+
+/-- the calls of dataiter/vector.py: Vector.length in the order Python makes them along the source text -/
+def Vector_length_call_order : List String := ["self._check_dimensions"]
 
 /-- dataiter/data_frame.py: DataFrame.nrow (sha256 of the function source: be27b9810d333211) -/
 def DataFrame_nrow (truth : Term → Bool) : Out :=
@@ -126,6 +147,9 @@ def DataFrame_nrow_decorators : List String := ["property"]
 
 /-- the signature of dataiter/data_frame.py: DataFrame.nrow: parameters in order, with the source text of their defaults -/
 def DataFrame_nrow_signature : List String := ["self"]
+
+/-- the calls of dataiter/data_frame.py: DataFrame.nrow in the order Python makes them along the source text -/
+def DataFrame_nrow_call_order : List String := ["self._check_dimensions", "iter", "next"]
 
 /-- dataiter/data_frame.py: DataFrame.__delitem__ (sha256 of the function source: 4e1dbfa272dd4be5) -/
 def DataFrame_delitem (truth : Term → Bool) : Out :=
@@ -145,6 +169,9 @@ def DataFrame_delitem_decorators : List String := []
 /-- the signature of dataiter/data_frame.py: DataFrame.__delitem__: parameters in order, with the source text of their defaults -/
 def DataFrame_delitem_signature : List String := ["self", "key"]
 
+/-- the calls of dataiter/data_frame.py: DataFrame.__delitem__ in the order Python makes them along the source text -/
+def DataFrame_delitem_call_order : List String := ["super", "super().__delitem__", "hasattr", "self.__is_builtin_attr", "super", "super().__delattr__"]
+
 /-- dataiter/data_frame.py: DataFrame.pop (sha256 of the function source: 1e9bd023a4d66dbe) -/
 def DataFrame_pop (truth : Term → Bool) : Out :=
   let value' : Term := (Term.app "super().pop" [(Term.sym "key"), (Term.app "*" [(Term.sym "args")]), (Term.app "=**" [(Term.sym "kwargs")])]);
@@ -163,6 +190,9 @@ def DataFrame_pop_decorators : List String := []
 /-- the signature of dataiter/data_frame.py: DataFrame.pop: parameters in order, with the source text of their defaults -/
 def DataFrame_pop_signature : List String := ["self", "key", "*args", "**kwargs"]
 
+/-- the calls of dataiter/data_frame.py: DataFrame.pop in the order Python makes them along the source text -/
+def DataFrame_pop_call_order : List String := ["super", "super().pop", "hasattr", "self.__is_builtin_attr", "super", "super().__delattr__"]
+
 /-- dataiter/data_frame.py: DataFrame.__delattr__ (sha256 of the function source: d451320c51b8280e) -/
 def DataFrame_delattr (truth : Term → Bool) : Out :=
   if truth (Term.app "In" [(Term.sym "name"), (Term.sym "self")]) then
@@ -176,6 +206,9 @@ def DataFrame_delattr_decorators : List String := []
 /-- the signature of dataiter/data_frame.py: DataFrame.__delattr__: parameters in order, with the source text of their defaults -/
 def DataFrame_delattr_signature : List String := ["self", "name"]
 
+/-- the calls of dataiter/data_frame.py: DataFrame.__delattr__ in the order Python makes them along the source text -/
+def DataFrame_delattr_call_order : List String := ["self.__delitem__", "super", "super().__delattr__"]
+
 /-- dataiter/data_frame.py: DataFrame.__getattr__ (sha256 of the function source: 018a5f2266811708) -/
 def DataFrame_getattr (truth : Term → Bool) : Out :=
   if truth (Term.app "In" [(Term.sym "name"), (Term.sym "self")]) then
@@ -188,6 +221,9 @@ def DataFrame_getattr_decorators : List String := []
 
 /-- the signature of dataiter/data_frame.py: DataFrame.__getattr__: parameters in order, with the source text of their defaults -/
 def DataFrame_getattr_signature : List String := ["self", "name"]
+
+/-- the calls of dataiter/data_frame.py: DataFrame.__getattr__ in the order Python makes them along the source text -/
+def DataFrame_getattr_call_order : List String := ["self.__getitem__", "AttributeError"]
 
 /-- dataiter/data_frame.py: DataFrame.__getattribute__ (sha256 of the function source: 3d4c793237b501e6) -/
 def DataFrame_getattribute (truth : Term → Bool) : Out :=
@@ -205,5 +241,8 @@ def DataFrame_getattribute_decorators : List String := []
 
 /-- the signature of dataiter/data_frame.py: DataFrame.__getattribute__: parameters in order, with the source text of their defaults -/
 def DataFrame_getattribute_signature : List String := ["self", "name"]
+
+/-- the calls of dataiter/data_frame.py: DataFrame.__getattribute__ in the order Python makes them along the source text -/
+def DataFrame_getattribute_call_order : List String := ["super", "super().__getattribute__"]
 
 end DI.Gen
